@@ -129,6 +129,58 @@ def run(ctx):
                 ctx.check(logic.equivalent(got, spec, lg.axioms), "R11.3", tm, "matches==spec",
                           "toggle::matches is not (has_prefix && name_without_prefix()==name()) || base::matches(arg): %s" % logic.show(got)[:300], tm)
 
+    # ---- R11.6: the count the increments start from is zero
+    ctx.rule("R11.6", "before a parse the occurrence count is reset to the literal 0 (the increments of R11.1 count from zero)")
+    pr = one(ctx, "R11.6", NS + "toggle::prepare")
+    if pr:
+        ws = []
+        for bid, i, e in pr.roots():
+            for eff, lv, n in tree_effects(e["expr"], into_sc=False):
+                if eff in ("write", "maybe_write") and lv is not None:
+                    kind, key, _ = lvalue_root(lv)
+                    if kind == "field" and key[0] == GIVEN and key[1] == "this":
+                        ws.append((bid, i, e, n))
+        ctx.need("R11.6", "writes of given_ in toggle::prepare", len(ws), 1)
+        ok, path = cfg.must_happen_before_exit(pr, lambda e: any(e is w[2] for w in ws))
+        ctx.check(ok, "R11.6", pr, "count-reset-on-every-path", "prepare() can return (B%s) without resetting given_" % "->B".join(map(str, path or [])), pr)
+        for bid, i, e, n in ws:
+            zero = n.get("k") == "bin" and n["op"] == "=" and literal_value(n["r"]) in (("int", 0), ("bool", False))
+            ctx.check(zero, "R11.6", pr, "count-reset-to-zero@%s" % _rel(pr, e),
+                      "prepare() sets the count to %s: occurrences on the command line are then added to that value instead of being counted from zero "
+                      "(a toggle with default 1 given twice reports 3)" % fmt(n.get("r") if n.get("k") == "bin" else n), (pr, e.get("ln")), why_ok=fmt(n))
+    # ---- R11.7: the count and the declared default travel in one integral type (no narrowing on the way)
+    ctx.rule("R11.7", "count, default, default_value()'s parameter and given()'s result have one integral type: a declared default n is reported as n")
+    tc = prog.cls(NS + "toggle")
+    if ctx.anchor("R11.7", NS + "toggle", tc is not None):
+        ftypes = {fl["name"]: (fl.get("ctype") or fl.get("type")) for fl in tc["fields"]}
+        carriers = {"given_": ftypes.get(short(GIVEN))}
+        # the default member: the field given_ is assigned from in check()
+        chk = prog.fn(NS + "toggle::check()")
+        dflt = set()
+        if chk is not None and chk.has_cfg:
+            for bid, i, e in chk.roots():
+                for eff, lv, n in tree_effects(e["expr"], into_sc=False):
+                    if eff == "write" and lv is not None and n.get("k") == "bin" and n["op"] == "=":
+                        kind, key, _ = lvalue_root(lv)
+                        r = ir.unwrap(n["r"])
+                        while isinstance(r, dict) and r.get("k") == "cast":
+                            r = ir.unwrap(r["e"])
+                        if kind == "field" and key[0] == GIVEN and isinstance(r, dict) and r.get("k") == "member":
+                            dflt.add(short(r["field"]))
+        for d0 in dflt:
+            carriers[d0] = ftypes.get(d0)
+        dv = [f for f in prog.methods_of(NS + "toggle") if f.name == "default_value" and f.params]
+        for f in dv:
+            carriers["default_value(%s)" % f.params[0].get("name")] = f.params[0].get("type")
+        gv = [f for f in prog.methods_of(NS + "toggle") if f.name == "given" and not f.params]
+        for f in gv:
+            carriers["given()"] = f.ret
+        ctx.need("R11.7", "carriers of the count (given_, default member, default_value parameter, given())", len(carriers), 4)
+        norm = {k: (v or "").replace("const ", "").strip() for k, v in carriers.items()}
+        types = set(norm.values())
+        ok = len(types) == 1 and not (types & {"bool", "_Bool", "char", "unsigned char", "signed char"})
+        ctx.check(ok, "R11.7", NS + "toggle", "one-count-type", "the count is carried through different types %s: a declared default (or a count) is narrowed on the way, e.g. default 3 reported as 1"
+                  % norm, "%s:%d" % (tc["file"], tc["line"]), why_ok=str(sorted(types)))
     # ---- R11.4
     pe = one(ctx, "R11.4", NS + "toggle::parse_env_value")
     if pe:
